@@ -139,6 +139,10 @@ func addAllFieldsToFlowType2(flowMsg *protobuf.FlowType2, record entities.Record
 			flowMsg.EgressPolicyName = ie.GetStringValue()
 		case "egressNetworkPolicyNamespace":
 			flowMsg.EgressPolicyNamespace = ie.GetStringValue()
+		case "flowEndReason":
+			flowMsg.FlowEndReason = uint32(ie.GetUnsigned8Value())
+		case "tcpState":
+			flowMsg.TcpState = ie.GetStringValue()
 		default:
 			klog.Warningf("There is no field with name: %v in flow message (.proto schema)", ie.GetName())
 		}
